@@ -736,7 +736,9 @@ class TaskScenario(ScenarioData):
             # For effort-based tasks, always use the calculated end (when work actually completes)
             # even if an explicit end constraint was specified (that's just the deadline, not the actual end)
             effort = self.property.get("effort", self.scenarioIdx) or 0
-            if effort > 0 or not self.property.get("end", self.scenarioIdx):
+            # A task flagged as milestone got its date above even if it inherits an effort
+            flagged_milestone = bool(self.property.get("milestone", self.scenarioIdx))
+            if not flagged_milestone and (effort > 0 or not self.property.get("end", self.scenarioIdx)):
                 self.property[("end", self.scenarioIdx)] = actual_end
 
         self.scheduled = True
